@@ -149,9 +149,14 @@ func strTruncateFunc(_ *ctx.EvalCtx, receiver object.Object, args ...object.Obje
 	}
 
 	val := receiver.(*object.Str).Value
-	limit := int(firstArg.Value)
+	limit := firstArg.Value
 
-	if limit >= utf8.RuneCountInString(val) {
+	if limit < 0 {
+		msg := fmt.Sprintf(fail.ErrFuncArgNegative, "truncate", object.STR_OBJ)
+		return nil, errors.New(msg)
+	}
+
+	if limit >= int64(utf8.RuneCountInString(val)) {
 		return &object.Str{Value: val}, nil
 	}
 
@@ -168,7 +173,7 @@ func strTruncateFunc(_ *ctx.EvalCtx, receiver object.Object, args ...object.Obje
 		}
 	}
 
-	newVal := val[:firstArg.Value] + ellipsis
+	newVal := string([]rune(val)[:limit]) + ellipsis
 
 	return &object.Str{Value: newVal}, nil
 }
